@@ -66,6 +66,9 @@ type FuncCtx struct {
 	siteSyms   map[string]Term
 	uninterp   map[string][]Term
 	ufDecls    map[string]string
+	f64bits    map[string]Term
+	factObjs   map[*Object][]*TableFact
+	factDone   map[string]bool
 }
 
 type CutInfo struct {
@@ -380,6 +383,9 @@ func loopPos(h *ssa.BasicBlock, body map[*ssa.BasicBlock]bool) token.Pos {
 	best := token.Pos(math.MaxInt32)
 	for b := range body {
 		for _, in := range b.Instrs {
+			if _, isPhi := in.(*ssa.Phi); isPhi {
+				continue // a phi carries the position of the variable's declaration, not of the loop
+			}
 			if p := in.Pos(); p.IsValid() && p < best {
 				best = p
 			}
